@@ -50,7 +50,13 @@ EXPLANATION = (
     'meson-logs, meson-info: the *_dir names class Environment declares) is created on every normal path that has a build directory - '
     'only "no build directory" and "it exists already" may lead around the creation (a wipe killed in its deletion loop leaves a '
     'configured directory without meson-logs/meson-info); R10 in OptionStore.set_option a rejection that depends on `.readonly` is '
-    'reachable only behind a test that the stored and the new value differ (the options of the interrupted command can be re-stated). '
+    'reachable only behind a test that the stored and the new value differ (the options of the interrupted command can be re-stated); '
+    'R11 in the ninja backend every open that keeps the contents of the temporary of a temp + os.replace publication (build.ninja~: mode a / r+ / x, '
+    'here or in the helper that receives the name) is reached only after a truncating open or a removal of that name on every path, so a '
+    'leftover of a killed run is never extended and published. '
+    'Reading notes: in R1 a destination chosen among alternatives inside the function (conditional expression, local bound in several places) is '
+    'read alternative by alternative with reaching definitions - one that names the protected file alone and reaches the sink is an in-place '
+    'open; in R2b a handler shared by several classes is judged per class, the atoms `isinstance(<caught>, C)` being decided by the class lattice. '
     'A violation is reported only where every call/condition of the judged region was classified; otherwise the verdict is Undecided. '
     'NOT decided: recoverability at each individual crash point; whether write_cmd_line_file records every [properties] key that '
     'read_cmd_line_file replays (cross_file/native_file: writer/reader agreement is C08.R4c, not repeated here); which values '
@@ -59,7 +65,8 @@ EXPLANATION = (
     'first setup killed in between leaves a valid coredata.dat without cmd_line.txt: values survive, a later --wipe loses them); the '
     '--wipe deletion loop, which removes cmd_line.txt and the machine files by directory listing while their only copy is in a '
     'TemporaryDirectory (names come from os.listdir, not from constants, so R1 cannot see them); option-order and whitespace fidelity of '
-    'cmd_line.txt (C07/C08 matters); robustness of the recursive delete helpers (windows_proof_rmtree / _make_tree_writable) against '
+    'cmd_line.txt (C07/C08 matters); which *values* update_cmd_line_file records or drops (an empty string treated like None/unset makes '
+    'cmd_line.txt disagree with coredata.dat: value-level writer/recorder agreement, C08); robustness of the recursive delete helpers (windows_proof_rmtree / _make_tree_writable) against '
     'directory contents such as dangling symlinks in a half-wiped tree (depends on run-time directory contents).')
 ASSUMPTIONS = [
     'os.replace/os.rename within one directory is atomic; a killed process loses no page cache (fsync not required)',
@@ -385,9 +392,18 @@ class Scan:
             if not hit:
                 continue
             where = f'{ref.mod.rel}:{ref.qn}'
+            chosen = ''
             if len(hit) > 1 or (len(dst) > 1 and s.kind in ('write', 'copy', 'rename') and any(_prot_base(t, self.prot) is None for t in dst)):
-                self.undecided.append(f'{where}: `{short(s.call)}` may or may not name {hit}: {P.show_all(dst)}')
-                continue
+                # the union may come from alternatives chosen inside this very function (`a if c else b`, a local bound in
+                # both arms of an if): read them one by one - an alternative that names the protected file alone and reaches
+                # the sink is a path on which the file is opened under its own name
+                alt = self._protected_alternative(ref, s, env) if s.kind in ('write', 'copy') and len(hit) == 1 else None
+                if alt is None:
+                    self.undecided.append(f'{where}: `{short(s.call)}` may or may not name {hit}: {P.show_all(dst)}')
+                    continue
+                if not alt[0]:
+                    continue            # every alternative that reaches the sink names another file
+                dst, chosen = alt
             base = hit[0]
             if s.kind == 'read':
                 continue
@@ -421,11 +437,11 @@ class Scan:
                     self.undecided.append(f'{where}: `{short(s.call)}` opens {base} with a non-constant mode')
                     continue
                 self._rec('inplace', ref, s.call, base,
-                          f'opens {P.show_all(dst)} with mode {s.mode!r}: {base} is truncated/modified under its own name; '
+                          f'opens {P.show_all(dst)}{chosen} with mode {s.mode!r}: {base} is truncated/modified under its own name; '
                           f'a kill between this open and the end of the write leaves it empty or partial')
                 continue
             if s.kind == 'copy':
-                self._rec('inplace', ref, s.call, base, f'copies onto {P.show_all(dst)} in place (not atomic)')
+                self._rec('inplace', ref, s.call, base, f'copies onto {P.show_all(dst)}{chosen} in place (not atomic)')
                 continue
             # rename: publication
             assert s.src is not None
@@ -486,6 +502,63 @@ class Scan:
                 cfg = cfg or CFG(fn)
                 in_h, rer, _ = self._handler_ctx(ref, cfg, n)
                 self.analyse(callee, env2, depth - 1, rollback or (in_h and rer))
+
+    def _protected_alternative(self, ref: FuncRef, s: Sink, env: T.Dict[str, Terms]) -> T.Optional[T.Tuple[Terms, str]]:
+        """The destination expression of sink `s` folds to protected and unprotected names.  When the alternatives are chosen
+        inside this function - a conditional expression with a non-constant test, or a local (not a parameter) every binding of
+        which is a plain assignment - each is folded on its own.  Returns (names, ' (note)') of the alternatives that name a
+        protected file alone and whose binding reaches the sink without being overwritten; (empty, '') when every reaching
+        alternative names other files only; None when some alternative is itself mixed / not readable this way."""
+        fn = ref.node
+        params = set(P.params_of(fn)) | {a.arg for a in fn.args.kwonlyargs}
+        cfg = CFG(fn)
+        at = cfg.node_containing(s.call)
+        if not at:
+            return None
+        leaves: T.List[T.Tuple[ast.AST, str]] = []
+        dropped: T.List[ast.AST] = []
+
+        def split(e: ast.AST, how: str, seen: T.FrozenSet[str]) -> bool:
+            if isinstance(e, ast.IfExp):
+                if isinstance(e.test, ast.Constant):
+                    return False
+                return split(e.body, how + f' when `{short(e.test)}` holds', seen) and split(e.orelse, how + f' when `{short(e.test)}` does not hold', seen)
+            if isinstance(e, ast.Name) and e.id not in params and e.id not in seen:
+                defs = self.ps.local_defs(fn).get(e.id, [])
+                if not defs or any(d is None for d in defs):
+                    leaves.append((e, how))
+                    return True
+                dn: T.List[T.Tuple[ast.AST, T.List[Node]]] = [(d, cfg.node_containing(d)) for d in defs if d is not None]
+                if any(not ns for d, ns in dn):
+                    return False
+                for d, ns in dn:
+                    if len(dn) > 1:
+                        others = [n for d2, ns2 in dn if d2 is not d for n in ns2]
+                        if not any(cfg.can_reach(n, a, avoid=others) for n in ns for a in at):
+                            dropped.append(d)
+                            continue        # overwritten before the sink on every path
+                    if not split(d, how + (f' through `{e.id} = {short(d)}`' if len(dn) > 1 else ''), seen | {e.id}):
+                        return False
+                return True
+            leaves.append((e, how))
+            return True
+        assert s.path is not None
+        if not split(s.path, '', frozenset()) or len(leaves) + len(dropped) < 2:
+            return None
+        names: T.Set[Term] = set()
+        notes: T.List[str] = []
+        for e, how in leaves:
+            ts = self.ps.resolve(ref, e, env)
+            prot = [t for t in ts if _prot_base(t, self.prot)]
+            if not prot:
+                continue
+            if len(prot) != len(ts):
+                return None
+            names |= set(ts)
+            notes.append(how.strip() or f'as `{short(e)}`')
+        if not names:
+            return frozenset(), ''
+        return frozenset(names), ' (' + '; '.join(notes) + ')'
 
     def _rec(self, kind: str, ref: FuncRef, node: ast.AST, base: str, text: str) -> None:
         k = (repr(ref), id(node), kind, base)
@@ -1043,6 +1116,33 @@ def _recovery_events(ps: PathSym, ref: FuncRef, calls: T.List[ast.Call], depth: 
     return ev, understood
 
 
+def _exc_type_test(repo: Repo, node: ast.AST, bound: T.Optional[str], exc: str, mod: T.Optional[Module], scope_fn: T.Optional[ast.AST]) -> T.Optional[bool]:
+    """Truth value of the atom `isinstance(<the caught exception>, C)` in the world "an exception of class `exc` (or a subclass)
+    was caught" (family policy (b): a type world).  True when C is `exc` or an ancestor of it, False when C is a known class
+    unrelated to `exc` (neither ancestor nor descendant), None (both values possible / not such an atom) otherwise."""
+    if not (bound and isinstance(node, ast.Call) and call_name(node) == 'isinstance' and len(node.args) == 2 and not node.keywords
+            and isinstance(node.args[0], ast.Name) and node.args[0].id == bound):
+        return None
+    anc = _ancestors(repo, exc)
+    vals: T.List[T.Optional[bool]] = []
+    for t in _type_elements(node.args[1], mod, scope_fn):
+        c = attr_chain(t)
+        bare = c.split('.')[-1] if c else None
+        if bare is None or not _known_exc(repo, bare):
+            vals.append(None)
+        elif bare in anc:
+            vals.append(True)
+        elif exc in _ancestors(repo, bare):
+            vals.append(None)          # a subclass of the judged class: both answers are possible
+        else:
+            vals.append(False)
+    if any(v is True for v in vals):
+        return True
+    if vals and all(v is False for v in vals):
+        return False
+    return None
+
+
 def r2_environment(ctx: RuleCtx) -> None:
     mod = ctx.repo.module(ENVIRONMENT)
     ps = PathSym(ctx.repo)
@@ -1076,11 +1176,13 @@ def r2_environment(ctx: RuleCtx) -> None:
                 raise Undecided(f'handler chosen for MesonException is `{short(h.type)}`')
             paths = enumerate_paths(h.body, pure={'isfile', 'exists', 'get_cmd_line_file', 'join'})
             n_regen = 0
+            n_pruned = 0
             reported: T.Set[int] = set()
             for p in paths:
                 tested: T.Optional[T.Tuple[ast.AST, Terms]] = None
                 present: T.Optional[bool] = None
                 nconds = 0
+                impossible = False
                 for ev in p.events:
                     if ev.kind != 'cond':
                         continue
@@ -1090,12 +1192,24 @@ def r2_environment(ctx: RuleCtx) -> None:
                         d = ps.local_defs(ref.node).get(node.id, [])
                         if len(d) == 1 and d[0] is not None:
                             node = d[0]
+                    # a handler shared by several classes that dispatches on `isinstance(e, C)`: only the paths consistent
+                    # with the class being judged belong to this case
+                    tv = _exc_type_test(ctx.repo, node, h.name, exc, mod, ref.node)
+                    if tv is not None:
+                        nconds -= 1
+                        if tv != bool(ev.val):
+                            impossible = True
+                            break
+                        continue
                     if isinstance(node, ast.Call) and call_name(node) in ('os.path.isfile', 'os.path.exists') and node.args:
                         ts = ps.resolve(ref, node.args[0])
                         if ts and all(P.basename(t) == 'cmd_line.txt' for t in ts):
                             present = ev.val
                             nconds -= 1
                             tested = (node, ts)
+                if impossible:
+                    n_pruned += 1
+                    continue
                 events, understood = _recovery_events(ps, ref, p.calls())
                 # the file whose presence is tested must be the file the replay reads (same folded name)
                 if tested is not None and present:
@@ -2783,6 +2897,134 @@ def r10_restated(ctx: RuleCtx) -> None:
         ctx.note(f'{qn}: read with these helper statements inlined: {"; ".join(inlined)}')
 
 
+# ---------------------------------------------------------------------------
+# R11: the temporary of an atomically published generated file is started afresh
+
+NINJABACKEND = 'mesonbuild/backend/ninjabackend.py'
+EXISTS_FUNCS = ('os.path.exists', 'os.path.isfile', 'os.path.lexists')
+
+
+def _temp_events(ps: PathSym, ref: FuncRef, tmp: Terms, publish: ast.Call) -> T.Tuple[T.List[T.Tuple[ast.Call, str, str]], T.List[str]]:
+    """Events on the file named `tmp` inside ref: (call, 'fresh' | 'keep' | 'remove', description) - an open that truncates ('w'),
+    an open that keeps what is there ('a', 'r+', 'x'), a removal - directly or in a repository callee that receives the name
+    (its opens of that parameter, one level); and the calls that receive the name but could not be read."""
+    ev: T.List[T.Tuple[ast.Call, str, str]] = []
+    unread: T.List[str] = []
+
+    def kind_of(mode: T.Optional[str]) -> T.Optional[str]:
+        if mode is None:
+            return None
+        return 'fresh' if 'w' in mode else 'keep'
+    own = {id(s.call): s for s in _sinks(ref.node, set())}
+    for n in walk_no_nested(ref.node):
+        if not isinstance(n, ast.Call) or n is publish:
+            continue
+        s = own.get(id(n))
+        if s is not None and s.path is not None and s.kind in ('write', 'remove') and ps.resolve(ref, s.path) == tmp:
+            k = 'remove' if s.kind == 'remove' else kind_of(s.mode)
+            if k is None:
+                unread.append(f'`{short(n)}` (mode is not a constant)')
+            else:
+                ev.append((n, k, f'`{short(n)}`'))
+            continue
+        if s is not None:
+            continue
+        args = [a for a in n.args if not isinstance(a, ast.Starred)] + [k.value for k in n.keywords if k.arg]
+        if not any(ps.resolve(ref, a) == tmp for a in args):
+            continue
+        cn = call_name(n) or ''
+        if cn in EXISTS_FUNCS or cn.startswith('mlog.') or cn in HANDLER_INERT:
+            continue
+        callee = ps.resolve_callee(ref, n)
+        if callee is None:
+            unread.append(f'`{short(n)}` (callee not resolved)')
+            continue
+        env = ps.bind_args(callee, n, ref, {}, 2, frozenset())
+        kinds: T.Set[str] = set()
+        inner_unread = False
+        for s2 in _sinks(callee.node, set()):
+            if s2.path is not None and s2.kind in ('write', 'remove') and ps.resolve(callee, s2.path, env) == tmp:
+                k2 = 'remove' if s2.kind == 'remove' else kind_of(s2.mode)
+                if k2 is None:
+                    inner_unread = True
+                else:
+                    kinds.add(k2)
+        for c2 in walk_no_nested(callee.node):
+            if isinstance(c2, ast.Call) and not any(c2 is s2.call for s2 in _sinks(callee.node, set())) and (call_name(c2) or '') not in EXISTS_FUNCS \
+                    and any(ps.resolve(callee, a, env) == tmp for a in c2.args if not isinstance(a, ast.Starred)):
+                inner_unread = True         # handed on a second level: not followed
+        if inner_unread or len(kinds) > 1:
+            unread.append(f'`{short(n)}` ({callee.qn} treats the file in several ways: {sorted(kinds)})')
+        elif kinds:
+            k3 = kinds.pop()
+            ev.append((n, k3, f'`{short(n)}` ({callee.qn} opens its parameter ' + ('truncating' if k3 == 'fresh' else 'removing it' if k3 == 'remove' else 'without truncating') + ')'))
+    return ev, unread
+
+
+def r11_fresh_temp(ctx: RuleCtx) -> None:
+    mod = ctx.repo.module(NINJABACKEND)
+    ps = PathSym(ctx.repo)
+    n_pub = n_keep = 0
+    for qn, fn in mod.funcs().items():
+        ref = FuncRef(mod, qn)
+        for s in _sinks(fn, set()):
+            if s.kind != 'rename' or s.src is None or s.path is None:
+                continue
+            tmp = ps.resolve(ref, s.src)
+            dst = ps.resolve(ref, s.path)
+            if len(tmp) != 1 or len(dst) != 1 or tmp == dst:
+                raise Undecided(f'{qn}: `{short(s.call)}`: source/destination are not single distinct names: {P.show_all(tmp)} -> {P.show_all(dst)}')
+            events, unread = _temp_events(ps, ref, tmp, s.call)
+            if not events and not unread:
+                continue            # the renamed file is not written here: not a temp + replace publication
+            n_pub += 1
+            if unread:
+                raise Undecided(f'{qn}: the temporary {P.show_all(tmp)} of `{short(s.call)}` is handed to {unread}; cannot tell whether a leftover is kept')
+            cfg = CFG(fn)
+            fresh = [n for c, k, d in events if k in ('fresh', 'remove') for n in cfg.node_containing(c)]
+
+            def edge_ok(a: Node, b: Node, lab: T.Any) -> bool:
+                # `if os.path.exists(tmp):` false edge: there is no leftover
+                t = getattr(a.ast, 'test', None)
+                if a.kind == 'test' and lab is False and isinstance(t, ast.Call) and call_name(t) in EXISTS_FUNCS and t.args and ps.resolve(ref, t.args[0]) == tmp:
+                    return False
+                return True
+            reach = cfg.reachable([cfg.entry], avoid=fresh, edge_ok=edge_ok)
+            for c, k, d in events:
+                if k != 'keep':
+                    continue
+                n_keep += 1
+                at = cfg.node_containing(c)
+                if not at:
+                    raise Undecided(f'{qn}: `{short(c)}` is not in the CFG')
+                ok = not any(n.id in reach for n in at)
+                ctx.require(ok, f'{qn}: {d} continues the temporary {P.show_all(tmp)} only after it was created afresh on every path '
+                            f'({"; ".join(d2 for c2, k2, d2 in events if k2 != "keep")}) - a leftover of a killed run never reaches `{short(s.call)}`',
+                            mod, qn, c, f'{d} opens the temporary {P.show_all(tmp)} keeping its contents, and no truncating open / removal of it comes first on every path: '
+                            f'a {P.show_all(tmp)} left behind by a run killed before `{short(s.call)}` is extended (or makes an exclusive create fail) and the result is '
+                            f'published as {P.show_all(dst)} - the regenerated file holds the old and the new text and the follow-up `meson setup --reconfigure` cannot repair it', c)
+            if not any(k == 'keep' for c, k, d in events):
+                ctx.ok(f'{qn}: every open of the temporary {P.show_all(tmp)} of `{short(s.call)}` truncates it')
+    if n_pub == 0:
+        raise Undecided(f'{NINJABACKEND}: no temp + os.replace publication found (build.ninja is generated some other way)')
+    ctx.floor('temp + replace publications in the ninja backend', n_pub, 1)
+    # built-in positive example (expected-zero clause)
+    ex_rel = 'mesonbuild/_verif_c09_r11_example.py'
+    ex = "import os\n\ndef _more(name):\n    return open(name, 'a')\n\ndef bad(out):\n    tmp = out + '~'\n    with _more(tmp) as f:\n        f.write('x')\n    os.replace(tmp, out)\n\n" \
+         "def good(out):\n    tmp = out + '~'\n    with open(tmp, 'w') as f:\n        f.write('x')\n    with _more(tmp) as f:\n        f.write('y')\n    os.replace(tmp, out)\n"
+    repo2 = Repo(ctx.repo.root, {ex_rel: ex})
+    ps2 = PathSym(repo2)
+    m2 = repo2.module(ex_rel)
+    got = {}
+    for q in ('bad', 'good'):
+        r2 = FuncRef(m2, q)
+        ren = [x for x in _sinks(r2.node, set()) if x.kind == 'rename'][0]
+        e2, u2 = _temp_events(ps2, r2, ps2.resolve(r2, ren.src), ren.call)
+        got[q] = (sorted(k for c, k, d in e2), u2)
+    if got != {'bad': (['keep'], []), 'good': (['fresh', 'keep'], [])}:
+        raise AnalysisError(f'C09.R11 built-in example not classified as expected: {got}')
+
+
 RULES = [
     Rule('C09.R1', 'recovery-critical files are published atomically (temp + closed + os.replace), never opened in place', r1),
     Rule('C09.R2a', 'pickle_load converts truncated-pickle errors into MesonException', r2_pickle),
@@ -2797,4 +3039,5 @@ RULES = [
     Rule('C09.R8', 'the configure-command options are applied only to a loaded coredata', r8_loaded_only),
     Rule('C09.R9', 'Environment re-creates the sub-directories of the build directory on every run', r9_dirs),
     Rule('C09.R10', 'a read-only option is rejected only when its value changes (the interrupted command can be repeated)', r10_restated),
+    Rule('C09.R11', 'the temporary of build.ninja is created afresh before anything is appended to it', r11_fresh_temp),
 ]
